@@ -365,7 +365,21 @@ class TheCheck(Check):
                 sched = [rng.choice([1, 2, 63, 64, 65, 100, 4096, 32767, 32768, 40000]) for _ in range(rng.randrange(0, 12))]
                 ops.append("md5file %d %d%s" % (off, nb, "".join(" %d" % k for k in sched)))
             ops.append("md5file %d 0" % size)
+            if size >= 70000:
+                # concurrent callers on different ranges of the same file (the function takes no lock)
+                for _ in range(2 if quick else 6):
+                    rs = []
+                    for _r in range(4):
+                        off = rng.randrange(size - 40000)
+                        rs += [off, rng.randrange(33000, size - off + 1)]
+                    ops.append("md5filemt 4 %d %s" % (6 if quick else 20, " ".join(map(str, rs))))
         sts.append(Stream("md5-file-ranges", ops, history=True, note="short reads via --wrap=read"))
+        # 5. every function called from several threads at once, each thread on its own input
+        ops = []
+        for ln in ([1, 55, 64, 300, 5000, 70000] if quick else [1, 3, 15, 16, 55, 56, 64, 65, 300, 5000, 70000, 300000]):
+            x = bytes(rng.randrange(256) for _ in range(ln))
+            ops.append("allmt %d %d %s" % (4 if quick else 8, 40 if ln < 5000 else 8, hexs(x)))
+        sts.append(Stream("concurrent-callers", ops, note="pure functions: no hidden shared state"))
         return sts
 
     # ------------------------------------------------------------ oracle
@@ -399,6 +413,37 @@ class TheCheck(Check):
         kind = w[0]
         if kind in ("mkfile", "md5file"):
             return self.judge_file(w, line)
+        if kind in ("allmt", "md5filemt"):
+            # called from several threads at once every call still returns the published function
+            # of ITS arguments (no hidden shared state)
+            parts = line.split(" | ")
+            T = int(w[1])
+            if parts[0] != "ok" or len(parts) != T + 1:
+                return "incomplete result line (the harness died during this operation?): `%s`" % line[:160]
+            if "UNSTABLE" in line:
+                t = next(i for i, p_ in enumerate(parts[1:]) if "UNSTABLE" in p_)
+                return "thread %d of %d concurrent callers got different results for the SAME arguments in different rounds: %s" % (t, T, parts[1 + t][:120])
+            if kind == "allmt":
+                x = unhex(w[3])
+                for t in range(T):
+                    xt = x[t % len(x):] + x[:t % len(x)]
+                    got = dict(f.split("=", 1) for f in parts[1 + t].split() if "=" in f)
+                    for k in ("md5", "fnv32", "fnv64", "m32", "m128"):
+                        if got.get(k) != expect(k, xt):
+                            return "%s of %d bytes called from thread %d of %d concurrent callers gives `%s`, the published algorithm gives `%s`" % (k, len(xt), t, T, got.get(k), expect(k, xt))
+            else:
+                if getattr(self, "_file", None) is None:
+                    return None
+                size, data = self._file
+                rs = [(int(a), int(b)) for a, b in zip(w[3::2], w[4::2])]
+                for t in range(T):
+                    off, nb = rs[t % len(rs)]
+                    rng_ = data[off:] if nb == 0 else data[off:off + nb]
+                    want = "false" if off + nb > size else hashlib.md5(rng_).hexdigest()
+                    if parts[1 + t] != want:
+                        return ("qhashmd5_file(offset=%d, nbytes=%d) of a %d-byte file, called from thread %d of %d concurrent "
+                                "callers, gives `%s`, RFC 1321 MD5 of that range is `%s`" % (off, nb, size, t, T, parts[1 + t], want))
+            return None
         if "DEP:" in line:
             return "result depends on the buffer's address or on the bytes after the buffer: %s" % line[:200]
         if kind in ("md5", "fnv32", "fnv64", "murmur32", "murmur128"):
